@@ -642,6 +642,17 @@ def symbolic_comprehension(I, e, env, module):
     return SV(V.VList(f(xs)))
 
 
+def lookups_only(t, what):
+    """a dict built as {x: f(x) for x in xs} is modelled for lookups and in-place updates of entries only: its association list may
+    repeat a key, so its length and its iteration are not the dict's"""
+    l = z3.simplify(V.vd(t) if t.sort() == V.Val else t)
+    while z3.is_app(l) and l.decl().name() in ("d_set", "d_update", "d_remove") and l.num_args() >= 1:
+        l = l.arg(0)
+    ent = _MAP_BY_NAME.get(l.decl().name()) if z3.is_app(l) else None
+    if ent is not None and ent.get("keyed_by_elem"):
+        raise Unsupported(f"{what} of a dict built by a comprehension keyed by its element (modelled for lookups only)")
+
+
 def comp_dict_lemmas(dterm, k):
     """{x: f(x) for x in xs} looked up at k - instances of two theorems (induction on xs) about the association list
     pairs(xs) = [(x, f(x)) for x in xs]:   has(pairs(xs), k) <=> k in xs      has(pairs(xs), k) => get(pairs(xs), k) = f(k)
@@ -1139,6 +1150,7 @@ def dict_method(I, t, name, args, kwargs):
         return SV(V.dget(d, k, default))
     if name == "copy":
         return MDict(t)
+    lookups_only(t, f".{name}()")
     if name == "items":
         return SV(V.VList(d))
     if name == "keys":
@@ -1163,6 +1175,7 @@ def mdict_method(I, recv, name, args, kwargs):
         return MDict(recv.t)
     if name == "get":
         return dict_method(I, recv.t, name, args, kwargs)
+    lookups_only(recv.t, f".{name}()")
     if name == "items":
         return SV(V.VList(V.vd(recv.t)))
     if name == "setdefault":
@@ -1537,6 +1550,7 @@ def _len(I, args, kwargs):
         if entailed(I, V.is_VStr(t)):
             return SV(V.VInt(z3.Length(V.vs(t))))
         if entailed(I, V.is_VDict(t)):
+            lookups_only(t, "len()")
             return SV(V.VInt(V.vl_len(V.vd(t))))
         if entailed(I, V.is_VTuple(t)):
             return SV(V.VInt(V.vl_len(V.vt(t))))
